@@ -114,12 +114,12 @@ namespace {
       fix(id[0], id[1]);
       fix(id[2], id[3]);
       c.close(getComponent(C, id[0], id[1], id[2], id[3]), Cr(id[0], id[1], id[2], id[3]),
-              128 * u * f4::maxabs(Cr) + tiny, "C02.st2tost2.getComponent", "getComponent");
+              256 * u * f4::maxabs(Cr) + tiny, "C02.st2tost2.getComponent", "getComponent");
       const T x = static_cast<T>(c.sreal(sc, "x"));
       C4 G = C;
       setComponent<T>(G, id[0], id[1], id[2], id[3], x);
       const T4 Gr = f4::toT4(G, N, SYM, SYM);
-      const R tx = 128 * u * std::fabs(static_cast<R>(x)) + tiny;
+      const R tx = 256 * u * std::fabs(static_cast<R>(x)) + tiny;
       c.close(Gr(id[0], id[1], id[2], id[3]), x, tx, "C02.st2tost2.setComponent",
               "component after setComponent");
       c.close(Gr(id[1], id[0], id[3], id[2]), x, tx, "C02.st2tost2.setComponent",
